@@ -39,6 +39,10 @@ THEOREMS = ["JanetModel.Props.C03." + t for t in (
     "gensym_probe_loop_tie", "gensym_fresh", "symcache_unique_gensym",
     # session 4: the explicit traversal stack of janet_equals / janet_compare computes the recursive definitions
     "compare_traversal_stack_is_recursive", "equals_traversal_stack_is_recursive", "compare_traversal_loop_invariant",
+    # session 4b: abstract values with compare / hash hooks (value.c dispatch with the hooks as parameters; inttypes.c hooks lawful)
+    "abstract_equals_equivalence_and_hash", "abstract_compare_antisymm", "abstract_compare_triple", "abstract_compare_eq_zero_iff_equals",
+    "abstract_compare_total_order", "abstract_model_extends_value_model", "compare_abstract_is_type_then_hook", "inttypes_hooks_lawful",
+    "abstract_dispatch_tie",
 )]
 # which law of a symbol-cache scenario to report first (the most direct statement of the property comes first)
 SYM_LAW_ORDER = ["gensym-duplicates-live-symbol", "symbol-duplicate-live", "symbol-duplicate-after-collect", "compare-zero-iff-equals", "symbol-identity",
@@ -127,7 +131,8 @@ def parse_term(toks, i=0):
         h = toks[i + 1]
         return (t, b"" if h == "-" else bytes.fromhex(h)), i + 2
     if t == "a":
-        return ("a", bytes.fromhex(toks[i + 1]).decode(errors="replace"), int(toks[i + 2], 16)), i + 3
+        # type name, content (payload of a boxed integer / the boxed word of any other abstract), boxed word, address of the type record
+        return ("a", bytes.fromhex(toks[i + 1]).decode(errors="replace"), int(toks[i + 2], 16), int(toks[i + 3], 16), int(toks[i + 4], 16)), i + 5
     if t == "r":
         return ("r", int(toks[i + 1]), int(toks[i + 2], 16)), i + 3
     if t == "T":
@@ -165,6 +170,8 @@ def show_term(x):
         return "%s %s" % (k, x[1].hex() or "-")
     if k == "r":
         return "r %d %016x" % (x[1], x[2])
+    if k == "a":
+        return "a %s %016x %016x %016x" % (x[1].encode().hex(), x[2], x[3], x[4])
     if k == "T":
         return " ".join(["T", "1" if x[1] else "0", str(len(x[2]))] + [show_term(y) for y in x[2]])
     if k == "S":
@@ -175,6 +182,21 @@ def show_term(x):
             parts.append(show_term(x[2]))
         return " ".join(parts)
     raise ValueError(k)
+
+
+def _abs_names(x):
+    """type names of the abstract values inside a term"""
+    if x[0] == "a":
+        yield x[1]
+    elif x[0] == "T":
+        for y in x[2]:
+            yield from _abs_names(y)
+    elif x[0] == "S":
+        for a, b in x[1]:
+            yield from _abs_names(a)
+            yield from _abs_names(b)
+        if x[2] is not None:
+            yield from _abs_names(x[2])
 
 
 def fl(bits):
@@ -191,6 +213,8 @@ def canon(x):
         return ("T", x[1], tuple(canon(y) for y in x[2]))
     if k == "S":
         return ("S", frozenset((canon(a), canon(b)) for a, b in x[1] if a[0] != "nil"), None if x[2] is None else canon(x[2]))
+    if k == "a":
+        return x[:3]     # (type, content): the payload of a boxed integer, the identity of any other abstract
     return x
 
 
@@ -204,6 +228,8 @@ def layout(x):
         return ("T", x[1], tuple(layout(y) for y in x[2]))
     if k == "S":
         return ("S", tuple((layout(a), layout(b)) for a, b in x[1]), None if x[2] is None else layout(x[2]))
+    if k == "a":
+        return x[:3]
     return x
 
 
@@ -285,6 +311,7 @@ def run(ctx, scripts=None):
     try:
         ctx.build.boot()
         ctx.gen("Value.lean", gen_value.render(ctx.build.tree))
+        ctx.gen("ValueAbs.lean", gen_value.render_abs(ctx.build.tree))
     except ExtractError as e:
         broken.append("translator tools/gen/value.py: %s" % e)
         ctx.broken.append(broken[-1])
@@ -332,7 +359,7 @@ def run(ctx, scripts=None):
     else:
         pools = scripts
     tot = dict(litforms=0, pairs=0, triples=0, vmcalls=0, values=0, model_lines=0, model_diffs=0, classes=0, multi_classes=0, layouts=0, symbols=0)
-    recipe_hist, type_hist, cap_hist = {}, {}, {}
+    recipe_hist, type_hist, cap_hist, abs_types = {}, {}, {}, {}
     samples, diffs_all, direct = [], [], []
     for name, script, labels, prelude in pools:
         pr = run_pool(hx, script, labels)
@@ -553,6 +580,35 @@ def run(ctx, scripts=None):
                         q = next((q for q in range(len(ids)) if q >= len(orow) or irow[q] != orow[q]), 0)
                         diffs.append({"op": "janet_equals / janet_compare, iterative mirror (explicit traversal stack)", "a": info(i), "b": info(ids[q]),
                                       "impl": irow[q], "model": orow[q] if q < len(orow) else "?"})
+            # ---- values CONTAINING ABSTRACTS: the model with abstract values (Value/Abstract.lean: janet_compare_abstract statement by
+            #      statement, hooks by type name from the regenerated table, type pointers / boxed words / payloads as serialised), in the
+            #      company of a sample of abstract-free values so that rows cross every type
+            aids = [i for i in range(n) if pr.meta[i].get("amodel") == "1" and not nan[i]]
+            if aids and len(mout) == len(lines):
+                plain = [i for i in ids if not nan[i]]
+                comp = plain[::max(1, len(plain) // (60 if quick else 200))]
+                aset = aids + comp
+                alines = ["aval %d %s" % (p, " ".join(pr.vals[i])) for p, i in enumerate(aset)] + ["arow %d" % p for p in range(len(aset))]
+                aout = ctx.model(alines, exe=exe)
+                tot["model_lines"] += len(alines)
+                tot["abstract_values_in_model"] = tot.get("abstract_values_in_model", 0) + len(aids)
+                tot["abstract_model_pairs"] = tot.get("abstract_model_pairs", 0) + len(aset) ** 2
+                for i in aids:
+                    for nm in set(_abs_names(terms[i])):
+                        abs_types[nm] = abs_types.get(nm, 0) + 1
+                if len(aout) != len(alines):
+                    diffs.append({"op": "driver (aval/arow)", "impl": "%d lines" % len(alines), "model": "%d lines" % len(aout)})
+                else:
+                    for p, i in enumerate(aset):
+                        want = "h %s t" % pr.meta[i]["hash"]
+                        if not aout[p].startswith(want + " "):
+                            diffs.append({"op": "hash (model with abstracts) " + labels[i][1][:200], "value": describe(terms[i])[:200], "impl": pr.meta[i]["hash"], "model": aout[p]})
+                        irow = "".join(pr.capi[i][j] for j in aset)
+                        mrow = aout[len(aset) + p]
+                        if irow != mrow:
+                            q = next((q for q in range(len(aset)) if q >= len(mrow) or irow[q] != mrow[q]), 0)
+                            diffs.append({"op": "equals/compare (model with abstracts: janet_compare_abstract)", "a": info(i), "b": info(aset[q]),
+                                          "impl": irow[q], "model": mrow[q] if q < len(mrow) else "?"})
             tot["model_diffs"] += len(diffs)
             if diffs:
                 diffs_all += diffs[:5]
@@ -767,6 +823,8 @@ def run(ctx, scripts=None):
         "pools": [p[0] for p in pools], "values": tot["values"], "pairs": tot["pairs"], "triples": tot["triples"], "vm_operator_calls": tot["vmcalls"],
         "vm_literal_shape_forms": tot["litforms"], "vm_literals": pg.LITERALS,
         "abstract_types_with_compare_or_hash_hooks": [list(h) for h in hooked],
+        "values_containing_abstracts_through_model": tot.get("abstract_values_in_model", 0), "abstract_model_pairs": tot.get("abstract_model_pairs", 0),
+        "abstract_type_histogram_through_model": dict(sorted(abs_types.items())),
         "content_classes": tot["classes"], "content_classes_with_several_constructions": tot["multi_classes"],
         "model_lines": tot["model_lines"], "model_diffs": tot["model_diffs"], "values_holding_nan_through_model": tot.get("nan_values_in_model", 0),
         "string_loop_pairs_through_model": tot.get("string_loop_pairs", 0),
@@ -782,12 +840,15 @@ def run(ctx, scripts=None):
     ctx.say("values %d pairs %d triples %d vmcalls %d classes %d (multi %d) model lines %d diffs %d layouts %d symcache %s" % (
         tot["values"], tot["pairs"], tot["triples"], tot["vmcalls"], tot["classes"], tot["multi_classes"], tot["model_lines"], tot["model_diffs"], tot["layouts"], sym_summary))
     ctx.say("layout scenario %s model rebuilds %d; literal-shape forms %d" % (lay_summary, lay_model, tot["litforms"]))
+    ctx.say("values containing abstracts through the model: %d (pairs %d) types %s" % (tot.get("abstract_values_in_model", 0), tot.get("abstract_model_pairs", 0), dict(sorted(abs_types.items()))))
     ctx.say("duplicate-key scenario %s model lines %d" % (dup_summary, dup_model))
     ctx.say("symbol-cache histories %s through model: %d histories, %d ops" % (symhist_summary, sh["model_histories"], sh["model_ops"]))
     return ctx.finish("proof", cov, assumptions=[
         "NaN is excluded from the laws (property text) but is part of the model type: laws proved on the NaN-free values of JVal F64, NaN keys refused by struct put (proved), "
         "hash / compare / equals of values holding NaN compared with the implementation (equals only when at most one side holds NaN: the C's pointer short-cut is not modelled); "
-        "abstract types (int/s64, int/u64, ...) are outside the model and outside the property's list",
+        "abstract values: modelled as addresses read through a memory (type pointer, payload, hooks per type); the laws are proved GIVEN lawful hooks (LawfulAbstract), the hooks "
+        "of inttypes.c are proved lawful from their regenerated shapes, every other abstract type of src/core has no compare / hash hook (translator scan of all initialisers); "
+        "the model assumes a hook reads only the payload at the address it is given",
         "numbers: general theorems are parametric in an abstract lawful order (LawfulNum) resp. an IEEE-like order with NaN (LawfulNaNNum); executable instance F64 = all 64-bit patterns, "
         "sign-magnitude reading for the order, NaN unordered, `+= 0.0` quiets a signalling NaN; tied to the C's double == , < and += by correspondence",
         "symbols/keywords: model compares bytes; that interning makes pointer identity = byte equality is modelled separately (Value/SymCache) and tested directly",
